@@ -745,6 +745,95 @@ def repr_stream(ctx, drv, scratch, n, tag="md-repr"):
                          case, model=out["bytes"], impl=B.hex())
 
 
+# --------------------------------------------------------------------------------------
+# sequence stream: families of triangles sharing Metadata objects, written in ONE process
+# --------------------------------------------------------------------------------------
+
+def gen_family(rng):
+    """A base triangle A whose slices carry non-empty details / loss_details, and relatives of A that share
+    A's Metadata OBJECTS (select / derive_fields) or ==-equal fresh copies of them, with OTHER key sets — so
+    that the same detail key gets another string-pool index: a subset of the fields, an extra field sorting
+    before / after the detail keys, an extra key that pushes keys over the placeholder slot. Returned in a
+    write order with repeats (A, B, A, C, ...): state carried from one write to the next (caches keyed by
+    Metadata, reused buffers) shows as a byte difference against the model or a wrong read-back."""
+    kind = rng.choice(["C", "U", "I"])
+    det_keys = rng.sample(["coverage", "m_state", "zone", "kлюч", "b_tag"], rng.randrange(1, 4))
+    ldet_keys = rng.sample(["peril", "cause", "a_kind"], rng.randrange(0, 3))
+    typed = {k: rng.choice(["str", "int", "float", "bool", "date", "str"]) for k in det_keys + ldet_keys}
+    fields = rng.sample(["paid_loss", "reported_loss", "case_reserve", "earned_premium", "open_claims",
+                         "a_count", "zz_last", "d_mid"], rng.randrange(2, 6))
+    metas = []
+    for _ in range(rng.randrange(1, 4)):
+        st, m = xcall(Metadata, risk_basis=rng.choice(_RB), country=rng.choice(_STRS), currency=rng.choice(_STRS),
+                      per_occurrence_limit=rand_limit(rng),
+                      details={k: rand_detail_value(rng, typed[k]) for k in det_keys},
+                      loss_details={k: rand_detail_value(rng, typed[k]) for k in ldet_keys})
+        if st == "ok" and all(m != o for o in metas):
+            metas.append(m)
+    cells = []
+    for m in metas:
+        for ci in range(rng.randrange(1, 4)):
+            vals = {f: rand_cell_value(rng, rng.choice(["int", "float", "iarr", "none"])) for f in fields}
+            kw = dict(period_start=D(2001 + ci, 1, 1), period_end=D(2001 + ci, 12, 31),
+                      evaluation_date=D(2002 + ci, 6, 30), values=vals, metadata=m)
+            if kind == "I":
+                kw["prev_evaluation_date"] = D(2002 + ci, 3, 31)
+            st, c = xcall(CLASSES[kind], **kw)
+            if st == "ok":
+                cells.append(c)
+    st, A = xcall(Triangle, cells)
+    if st != "ok" or not len(A):
+        return []
+    desc = {"kind": kind, "slices": len(metas), "cells": len(cells), "keys": len(fields) + len(det_keys) + len(ldet_keys)}
+    rel = [("A", A)]
+
+    def add(name, fn):
+        st_, t = xcall(fn)
+        if st_ == "ok" and len(t):
+            rel.append((name, t))
+
+    sub = [f for f in fields if rng.random() < 0.5] or fields[:1]
+    add("select(subset)", lambda: A.select(sub))
+    add("select(one)", lambda: A.select([rng.choice(fields)]))
+    add("derive_fields(first)", lambda: A.derive_fields(**{"0_first": 1}))
+    add("derive_fields(last+first)", lambda: A.derive_fields(**{"zzzz": 2.5, "AAA": lambda c: 7}))
+    add("equal-copy-metadata", lambda: Triangle([c.replace(metadata=Metadata(**{**c.metadata.__dict__}),
+                                                             values={"x_only": 1}) for c in A.cells]))
+    many = {f"g{i:03d}": i for i in range(rng.choice([135, 140]))}
+    add("derive_fields(+140 keys)", lambda: Triangle([A.cells[0].derive_fields(**many)]))
+    order = [rel[0]]
+    others = rel[1:]
+    rng.shuffle(others)
+    for r in others:
+        order.append(r)
+        if rng.random() < 0.5:
+            order.append(rel[0])
+    order.append(rng.choice(rel))
+    return [(t, {**desc, "kind": f"family/{name}"}) for name, t in order]
+
+
+def family_stream(ctx, drv, scratch, n, tag="family"):
+    """(b) of the sequence lesson: every write is preceded by writes of RELATED triangles in the same process
+    and is compared byte-exact with the model and read back, exactly like the ordinary stream; (a): A is written
+    several times in the sequence, and the objects read back are edited in place before the next write."""
+    for _ in range(n):
+        fam = gen_family(ctx.rng)
+        if not fam:
+            continue
+        roundtrip_batch(ctx, drv, fam, scratch, tag=tag, compressed=False)
+        # edit what was read back in place, then write and read the base triangle again
+        A, desc = fam[0]
+        p = scratch.path(".trib")
+        st, _ = xcall(write_file, A, p)
+        st2, back = xcall(Triangle.from_binary, p)
+        if st == "ok" and st2 == "ok":
+            for c in back.cells:
+                c.values.clear()
+                c.metadata.details.clear()
+                c.metadata.loss_details["edited"] = "x"
+        roundtrip_batch(ctx, drv, [(A, {**desc, "kind": "family/A-after-edit"})], scratch, tag=tag, compressed=True)
+
+
 def make_triangles(ctx, n, small=False, must=()):
     """n random triangles (+ the fixed `must` descriptions first)"""
     rng = ctx.rng
@@ -820,6 +909,7 @@ def correspondence(ctx):
         tris += make_triangles(ctx, n, must=MUST)
         roundtrip_batch(ctx, drv, tris, scratch, tag="rt")
         repr_stream(ctx, drv, scratch, 300 if ctx.thorough else 40)
+        family_stream(ctx, drv, scratch, 60 if ctx.thorough else 8)
         for k, n_ in sorted(LAYOUT_SEEN.items()):
             ctx.count(f"array-layout/{k}", n_)
         infer_table(ctx, drv, make_triangles(ctx, 6 if ctx.thorough else 2, small=True), scratch)
@@ -829,7 +919,7 @@ RULE = ("random triangles over the full CellValue x MetadataValue lattice: int (
         "bit patterns incl. NaN/inf/-0.0), bool, None, np.int64/np.float64 scalars, int64/float64 arrays of 0-3 dims "
         "incl. empty ones in C order, Fortran order, transposed / strided / reversed / offset / broadcast views; details of str/int/float/bool/date/None; None/''/non-ASCII strings; limits None/float; "
         "0-4 slices; three cell classes; 0-400 distinct keys dense at 120-140 and 380-400 (+ fixed 0,136,137,138,392,"
-        "393,400); the empty triangle; .trib and .tribc, explicit and inferred compression; extension x flag table. "
+        "393,400); families of related triangles (select / derive_fields / ==-equal metadata copies) written in sequence in one process, with repeats; the empty triangle; .trib and .tribc, explicit and inferred compression; extension x flag table. "
         "distinct = distinct raw dump; non-trivial = at least one cell")
 ASSUMPTIONS = [
     "WF (checked by the driver on every generated triangle): strings < 32768 UTF-8 bytes, padded pool < 32768, ints in "
